@@ -7,7 +7,7 @@ from .. import apirun, common
 from ..kernelcases import DTYPES, MIN_INT, canon_array, encode_values, mask_token
 
 PID = "C08"
-MODULES = ["GroupbyVerif.Props.C08", "GroupbyVerif.LoopBridge.Cumulative"]
+MODULES = ["GroupbyVerif.Props.C08", "GroupbyVerif.LoopBridge.Cumulative", "GroupbyVerif.LoopBridge.IsNull"]
 RULE = ("seeded random interleavings of <= 3 groups (null codes/keys included) x value dtype classes f64 f32 i64 (incl. |v| > 2^53) i32 u8 u64 (incl. v > 2^53 and v >= 2^63) bool "
         "M8[ns] m8[s] with nulls x boolean masks x {cumsum, cummin, cummax, cumcount} x both skip_na, at the kernel level "
         "(numba.cum*) and through GroupBy.cum* (ndarray / indexed Series; keys with nulls); exhaustive <= 5 rows for f64 in the thorough tier; "
